@@ -57,7 +57,11 @@ TreeValues(ins, outs) ==
     IF \E i \in 1..Len(vs) : vs[i] \notin {"OK", "SKIP"}
     THEN vs[CHOOSE i \in 1..Len(vs) : vs[i] \notin {"OK", "SKIP"}] ELSE ""
 
-F(c, pat) == [c |-> c, pat |-> pat]
+F(c, pat) == [c |-> c, pat |-> pat, hosts |-> << >>]
+\* a sharing failure outside the known pattern names where the unshared occurrences stand
+FS(c, outs, ins, Rs) ==
+    LET pat == SharingPattern(ins, Rs) IN
+    [c |-> c, pat |-> pat, hosts |-> IF pat = "plain" THEN SharingHosts(outs, Rs) ELSE << >>]
 Opt(cond, x) == IF cond THEN << x >> ELSE << >>
 
 TagReport(rec) ==
@@ -85,9 +89,9 @@ TagReport(rec) ==
             Opt(tv # "", F("value-tree", tv))
          \o Opt(rv # "", F("value-evaluated", rv))
          \o Opt(~NoWrapperOnWrapper(ins, outs), F("wrapper-on-wrapper", ""))
-         \o Opt(scope /\ sbad # {}, F("not-shared", SharingPattern(ins, sbad)))
+         \o Opt(scope /\ sbad # {}, FS("not-shared", outs, ins, sbad))
          \o Opt(run.bad # "", F(run.bad, evs[run.at].ev))
-         \o Opt(scope /\ obad # {}, F("RepeatedOpOnce", SharingPattern(ins, obad)))
+         \o Opt(scope /\ obad # {}, FS("RepeatedOpOnce", outs, ins, obad))
          \o Opt(whole /\ ~AllInstInv(I), F("final-state-invariant", ""))
          \* the independent counter exceeds the bound: explained by the operation-level
          \* finding when there is one, a class of its own otherwise
